@@ -1,4 +1,6 @@
 import CkcVerif.Lemmas.HandValue
+import CkcVerif.Lemmas.Ranking
+import CkcVerif.Lemmas.FindCorrect
 import CkcVerif.Model.SixSeven
 /-!
 # C01 — the five-card rank value is the hand's exact poker strength ordinal
@@ -88,6 +90,72 @@ theorem C01_ends :
     handRankValue5 packed (words [⟨5, 0⟩, ⟨3, 1⟩, ⟨2, 2⟩, ⟨1, 3⟩, ⟨0, 3⟩]) = some 7462 := by
   decide +kernel
 
+/-- **the value is a position**: listing the hand classes by value 1, 2, …, 7462 gives a list that is
+    strictly decreasing in strength and contains every feasible class — i.e. the list of all poker hand
+    classes sorted strongest first — and the class of five distinct real cards stands in it at position
+    `value` (counting from 1) -/
+theorem C01_position {cs : List Card} (h : IsHand 5 cs) {v : Nat} (e : handRankValue5 packed (words cs) = some v) :
+    ranking.length = 7462 ∧ ranking.Pairwise (fun c d => keyC c > keyC d) ∧
+    ∃ c, ranking[v - 1]? = some c ∧ keyC c = handStrength cs ∧
+      (ranks cs).Perm [c.1, c.2.1, c.2.2.1, c.2.2.2.1, c.2.2.2.2.1] ∧ c.2.2.2.2.2 = sameSuit cs := by
+  obtain ⟨c1, c2, c3, c4, c5, rfl⟩ := hand5_cases h
+  have k := h.ok
+  have k1 := k c1 (by simp); have k2 := k c2 (by simp); have k3 := k c3 (by simp)
+  have k4 := k c4 (by simp); have k5 := k c5 (by simp)
+  obtain ⟨q1, q2, q3, q4, q5, hp, hf, he⟩ := five_cards_class c1 c2 c3 c4 c5 k1 k2 k3 k4 k5 h.nodup
+  have e' : handRankValue5 packed [c1.word, c2.word, c3.word, c4.word, c5.word] = some v := e
+  rw [he] at e'
+  obtain ⟨_, _, hget⟩ := ranking_complete hf e'
+  refine ⟨ranking_length, ranking_sorted, _, hget, ?_, hp, ?_⟩
+  · show key q1 q2 q3 q4 q5 _ = _
+    unfold handStrength
+    rw [sameSuit5]
+    show _ = strength [c1.rank, c2.rank, c3.rank, c4.rank, c5.rank] _
+    rw [strength_perm hp, strength_eq_key hf]
+  · exact (sameSuit5 c1 c2 c3 c4 c5).symm
+
+/-- every entry of the ranking is a feasible class (a descending rank tuple realisable by five distinct
+    cards), and every feasible class is an entry: the ranking lists the 7,462 classes exactly -/
+theorem C01_ranking_exact :
+    (∀ c ∈ ranking, Feasible c.1 c.2.1 c.2.2.1 c.2.2.2.1 c.2.2.2.2.1 c.2.2.2.2.2) ∧
+    (∀ r1 r2 r3 r4 r5 f, Feasible r1 r2 r3 r4 r5 f → (r1, r2, r3, r4, r5, f) ∈ ranking) := by
+  constructor
+  · intro c hc
+    unfold ranking at hc
+    obtain ⟨k, hk, e⟩ := List.mem_map.mp hc
+    have := (classOf_ok (k + 1) (by omega) (by have := List.mem_range.mp hk; omega)).1
+    rw [e] at this
+    exact this
+  · intro r1 r2 r3 r4 r5 f hf
+    obtain ⟨v, ev, _⟩ := feasible_ok hf
+    obtain ⟨_, _, hget⟩ := ranking_complete hf ev
+    exact List.mem_of_getElem? hget
+
+/-- consequently the value is one more than the number of hand classes that are strictly stronger -/
+theorem C01_count_stronger {cs : List Card} (h : IsHand 5 cs) {v : Nat} (e : handRankValue5 packed (words cs) = some v) :
+    v = 1 + (ranking.filter (fun c => decide (keyC c > handStrength cs))).length := by
+  obtain ⟨hl, hs, c, hget, hk, _⟩ := C01_position h e
+  obtain ⟨_, _, _, _, a1, a2, _⟩ := C01_entry_points h
+  have hv : 1 ≤ v ∧ v ≤ 7462 := by
+    obtain ⟨w, b1, b2, e2, _⟩ := C01_entry_points h
+    rw [e] at e2; cases e2; exact ⟨b1, b2⟩
+  have hi : v - 1 < ranking.length := by rw [hl]; omega
+  have hc : ranking[v - 1] = c := by
+    have := List.getElem?_eq_getElem hi
+    rw [this] at hget
+    exact Option.some.inj hget
+  have := count_gt_of_sorted keyC ranking hs (v - 1) hi
+  rw [hc, hk] at this
+  omega
+
+/-- the binary search of the evaluator is functionally correct for every key: it returns the index of a
+    product that is in the (strictly increasing) table, so a non-flush hand with repeated ranks gets the
+    value stored with its prime product, and 0 only if the product is absent -/
+theorem C01_search_correct (i : Nat) (hi : i < 4888) :
+    findInProducts packed (get 32 Gen.productsP i) = some i ∧
+    notUniqueKey packed (get 32 Gen.productsP i) = packed.values i :=
+  ⟨findInProducts_found i hi, (notUniqueKey_spec _).1 i hi rfl⟩
+
 /-- non-vacuity: the hypotheses are met by 7♣ 5♦ 4♥ 3♠ 2♠ -/
 example : IsHand 5 [⟨5, 0⟩, ⟨3, 1⟩, ⟨2, 2⟩, ⟨1, 3⟩, ⟨0, 3⟩] := ⟨rfl, by decide, by decide⟩
 
@@ -99,3 +167,7 @@ end C01
 #print axioms C01.C01_any_order
 #print axioms C01.C01_onto
 #print axioms C01.C01_ends
+#print axioms C01.C01_position
+#print axioms C01.C01_ranking_exact
+#print axioms C01.C01_count_stronger
+#print axioms C01.C01_search_correct
